@@ -139,7 +139,7 @@ def wf_trees(draw, spec, max_nodes=8, aligned=True, inverted=True, noconcept=Tru
     return build(0)
 
 
-def reify_in_tree(draw, j, table, prob=(1, 2)):
+def reify_in_tree(draw, j, table, prob=(1, 2), tail=False):
     """Rewrites some branches whose role has a reification in *table* as properly reified nodes, in the text:
     (x :mod y)  ->  (x :ARG1-of (_N / have-mod-91 :ARG2 y)).  Produces the collapsible nodes dereify_edges looks for
     (concept dereifiable, exactly the two argument relations, referenced nowhere else).  Mutates and returns j."""
@@ -174,6 +174,23 @@ def reify_in_tree(draw, j, table, prob=(1, 2)):
                 v = fresh()
                 nd[1][i] = [sr + '-of', [v, [['/', concept + tilde + aln], [tr, x]]]]
     walk(j)
+    if tail:
+        # the rightmost path: reify the last branch of every node on it (several closes on the last triple)
+        nd = j
+        while True:
+            brs = [b for b in nd[1] if b[0] != '/']
+            if not brs:
+                break
+            last = brs[-1]
+            base, tilde, aln = last[0].partition('~')
+            nxt = last[1] if isinstance(last[1], list) else None
+            if base in reifs and last[1] is not None:
+                concept, sr, tr = reifs[base]
+                v = fresh()
+                last[0], last[1] = sr + '-of', [v, [['/', concept + tilde + aln], [tr, last[1]]]]
+            if nxt is None:
+                break
+            nd = nxt
     return j
 
 
